@@ -22,7 +22,7 @@
 From Coq Require Import ZArith NArith List Bool Arith Permutation.
 From CL Require Import Base.Sx Base.Res Base.Str Model.AddRemove Model.Compare
   Proofs.AddRemoveProofs Proofs.CompareSpec Proofs.CompareProofs Proofs.CompareKeys
-  Generated.C03Facts.
+  Model.CountWords Proofs.CountWordsProofs Generated.C03Facts.
 Import ListNotations.
 Local Open Scope nat_scope.
 
@@ -198,6 +198,30 @@ Theorem C03_key_binding : forall k : pykey,
   exists s, k = KS s /\
             exists a c b, s = a ++ c :: 101%N :: 121%N :: b /\ (c = 107%N \/ c = 75%N).
 Proof. exact py_keyname_spec. Qed.
+
+(* Entry.count_words on the engine with re_br / re_sgml regenerated from the source:
+   never out of fuel; on a value without '<' it is len(value.split()) *)
+Theorem C03_count_words_total : forall s : str, exists n, count_words s = Ok n.
+Proof. exact count_words_total. Qed.
+
+Theorem C03_count_words_plain : forall s : str,
+  ~ In 60%N s -> count_words s = Ok (split_count s false).
+Proof. exact count_words_plain. Qed.
+
+(* a break tag (<br>, <br/>, <br />) separates words, other markup is removed
+   without separating:  "one<br/>two" 2, "one<br />two" 2, "one<br>two" 2,
+   "one<b>two</b>" 1, "one <a href='x'>two</a> x" 3, "one<BR/>two" 1, "a &amp; b" 3 *)
+Example C03_example_count_words :
+  map (fun l => count_words (map N.of_nat l))
+      [[111; 110; 101; 60; 98; 114; 47; 62; 116; 119; 111];
+       [111; 110; 101; 60; 98; 114; 32; 47; 62; 116; 119; 111];
+       [111; 110; 101; 60; 98; 114; 62; 116; 119; 111];
+       [111; 110; 101; 60; 98; 62; 116; 119; 111; 60; 47; 98; 62];
+       [111; 110; 101; 32; 60; 97; 32; 104; 114; 101; 102; 61; 39; 120; 39; 62; 116; 119; 111; 60; 47; 97; 62; 32; 120];
+       [111; 110; 101; 60; 66; 82; 47; 62; 116; 119; 111];
+       [97; 32; 38; 97; 109; 112; 59; 32; 98]]
+  = [Ok 2; Ok 2; Ok 2; Ok 1; Ok 3; Ok 1; Ok 3].
+Proof. vm_compute. reflexivity. Qed.
 
 (* the full "never raises" statement is false of the faithful model: a
    localized key equal to the generated key of a reference Junk *)
